@@ -60,7 +60,8 @@ def gen_workers(rng, npts):
 
 def gen_points(rng, a, b):
     kind = rng.choice(['scatter', 'scatter', 'grid2d', 'default'])
-    pts = {'kind': kind, 'seed': rng.getrandbits(32), 'edges': rng.random() < 0.5}
+    pts = {'kind': kind, 'seed': rng.getrandbits(32), 'edges': rng.random() < 0.5,
+           'layout': rng.choice(['C', 'C', 'F', 'T', 'strided'])}
     if kind == 'scatter':
         pts['n'] = rng.choice([1, 2, 3, 5, 7, 11, 13, 17, 31, 64, 97, 101, 127, 200, rng.randint(1, 200)])
     elif kind == 'grid2d':
@@ -192,6 +193,10 @@ def shrink_candidates(scen):
         c = copy.deepcopy(scen)
         c['NLterms'] = False
         yield c
+    if pts.get('layout', 'C') != 'C':
+        c = copy.deepcopy(scen)
+        c['points']['layout'] = 'C'
+        yield c
     if scen['c']['kind'] != 'single-w':
         c = copy.deepcopy(scen)
         c['c']['kind'] = 'single-w'
@@ -280,7 +285,22 @@ def make_points(pts, a, b):
             if i < k and rng.random() < 0.6:
                 j = int(rng.integers(0, k))
                 flat_x[j], flat_y[j] = ex, ey
-    return xs, ys
+    return relayout(xs, pts.get('layout', 'C')), relayout(ys, pts.get('layout', 'C'))
+
+
+def relayout(arr, layout):
+    """same values, same shape, different memory layout (Fortran order, transposed view, strided view)"""
+    import numpy as np
+    if layout == 'F':
+        return np.asfortranarray(arr)
+    if layout == 'T' and arr.ndim == 2:
+        return np.ascontiguousarray(arr.T).T          # C-contiguous transpose viewed back: F-ordered view
+    if layout == 'strided':
+        big = np.zeros(tuple(2 * n for n in arr.shape), dtype=arr.dtype)
+        view = big[tuple(slice(None, None, 2) for _ in arr.shape)]
+        view[...] = arr
+        return view
+    return arr
 
 
 def default_grid(a, b, gridx, gridy):
